@@ -10,27 +10,16 @@ reordering = picked later.  Timeouts of either side's state are events as well.
 
 What is NOT in this model: a follow-up request (NUM ≠ 0) that finds no lg_xmit is handed to the application, whose
 single-block answer is not modelled (no response is generated); a body that fits one message is not a block-wise
-transfer (no response generated); the parameters `adlBody` is called with on the response path (`cfg`, a function of
-the SZX the request asked for) are not computed here; the ETag of an lg_xmit is `etagOf` of the context's counter
+transfer (no response generated); the parameters `adlBody` is called with on the response path are a parameter (`cfg`, a
+function of the SZX the request asked for; `rspCfg` below is what the C computes for a GET carrying Block2); the ETag of an lg_xmit is `etagOf` of the context's counter
 (`++session->context->etag`, skipping 0) at its creation; Size2, ETag and Content-Format are copied to every block
 response from the skeleton PDU the lg_xmit keeps.
 -/
 namespace Coap.Block
 
-/-- the arguments `adlBody` gets -/
-structure AdlCfg where
-  maxSize : Nat
-  tokLen : Nat
-  base : Nat
-  d : Nat
-  tokOpts0 : Nat
-  b2 : Nat
-  extra : Nat
-  blk : Option Nat
-
 structure B2Par where
   body : Bytes                  -- the resource's representation
-  cfg : Nat → AdlCfg            -- response-path parameters as a function of the SZX asked for
+  cfg : Nat → Option AdlCfg     -- response-path parameters as a function of the SZX asked for; none = refused before (4.00 / 5.00)
   etagOf : Nat → Bytes          -- coap_encode_var_safe8 of the context's ETag counter
   fmt : Nat
   room : Nat                    -- room of a follow-up response PDU
@@ -63,8 +52,9 @@ def mkResp (P : B2Par) (etagCtr num m szx : Nat) (p : Bytes) : Resp :=
 def srvOnReq (P : B2Par) (s : B2Sys) (num szx : Nat) : B2Sys :=
   if num = 0 then
     -- the application handler: coap_add_data_large_response (an existing lg_xmit for the resource is deleted first)
-    let c := P.cfg szx
-    match adlBody c.maxSize c.tokLen c.base c.d c.tokOpts0 c.b2 P.body.length c.extra c.blk with
+    match (match P.cfg szx with
+           | some c => adlBody c.maxSize c.tokLen c.base c.d c.tokOpts0 c.b2 P.body.length c.extra c.blk
+           | none => none) with
     | some r =>
       if r.lgXmit then
         match r.blockVal with
